@@ -669,7 +669,11 @@ fn scalar_val<'tcx>(tcx: TyCtxt<'tcx>, env: TypingEnv<'tcx>, c: Const<'tcx>, ty:
             }
         }
         ty::Ref(_, inner, _) if inner.is_str() => {
-            if let Const::Val(cv @ ConstValue::Slice { .. }, _) = c {
+            let cv = match c {
+                Const::Val(cv, _) => Some(cv),
+                _ => c.eval(tcx, env, rustc_span::DUMMY_SP).ok(),
+            };
+            if let Some(cv @ ConstValue::Slice { .. }) = cv {
                 if let Some(bytes) = cv.try_get_slice_bytes_for_diagnostics(tcx) {
                     if let Ok(s) = std::str::from_utf8(bytes) {
                         let _ = write!(out, ",\"str\":{}", js(s));
